@@ -131,6 +131,7 @@ REG = {
         "parts": [
             rapid("ext", "TestC04", 1500, 30000),
             enum("ext", "TestC04Enum", 8, 16),
+            rapid("sys", "TestC04Socket", 12, 300, qs=8, ts=16),
         ],
     },
     "C05": {
@@ -150,12 +151,13 @@ REG = {
         "level": "exploration",
         "technique": "invariant over histories (rapid): snapshot of every delivered message at delivery == its content after every later read and after connection cleanup, with the reader's single reused receive buffer reproduced exactly",
         "level_text": "Extractor-level: plain and fragmented histories followed by later one-frame-per-read traffic are fed through one reused 1023-byte buffer exactly as connection.reader does; after every read each earlier delivered message (ID, phone, serial, package numbers, Body, TerminalData) must equal the deep snapshot taken at delivery; finally the connection cleanup (pack.clear, clear(buffer)) runs and everything is compared again.",
-        "level_note": "The socket-level part (callbacks holding messages while the writer replies, reply correlation) is added by the scenario engine.",
+        "level_note": "Socket level (TestC09Socket): a live server in a child process; read callbacks keep every *Message (optionally handing it to another goroutine, optionally sleeping up to 2 ms while the next frames arrive); at the end of the scenario - after all later traffic and after the connection closed - every kept message is compared with its delivery-time snapshot inside the child, and the replies must be the C06 replies of their own requests.",
         "rule": "rapid histories as in C04/C05 plus 1..4 later frames; non-trivial = at least two reads follow the first delivery",
         "assumptions": [],
-        "required_buckets": {"any": ["plain", "fragmented", "cleanup"]},
+        "required_buckets": {"any": ["plain", "fragmented", "cleanup", "handoff", "hold_2000us", "sub_packaged"]},
         "parts": [
             rapid("ext", "TestC09Extractor", 1500, 30000),
+            rapid("sys", "TestC09Socket", 20, 400, qs=12, ts=16),
         ],
     },
     "C14": {
@@ -169,6 +171,7 @@ REG = {
         "parts": [
             rapid("ext", "TestC14", 1500, 30000),
             enum("ext", "TestC14Enum", 4, 16),
+            enum("sys", "TestC14RealClock", 1, 1, tiers=["thorough"], timeout={"thorough": 900}),
         ],
     },
     "C15": {
@@ -202,10 +205,11 @@ REG = {
         "level_note": "In-process parts treat a panic inside the connection loop as a process crash because service.go / attachment/service.go start connections with `go` and no recover. What happens to the attacker's own connection is free.",
         "rule": "rapid attack streams from 8 attack classes x write partitions; non-trivial = the stream got past framing (at least one frame/event accepted) or a lifecycle fault at a non-trivial point",
         "assumptions": [],
-        "required_buckets": {"any": ["connect_and_close", "closed_mid_stream", "hostile_chunk_header", "hostile_control_frame", "default_file_handler", "custom_file_handler", "hostile_package_numbers", "frames_accepted", "connection_closed_on_error", "unsupported_id"]},
+        "required_buckets": {"any": ["connect_and_close", "closed_mid_stream", "hostile_chunk_header", "hostile_control_frame", "default_file_handler", "custom_file_handler", "hostile_package_numbers", "frames_accepted", "connection_closed_on_error", "unsupported_id", "attack_connect_and_close", "attack_hostile_package_numbers", "attack_half_frame", "close_rst", "attack_frames_accepted", "handlers_parse_all"]},
         "parts": [
             rapid("ext", "TestC10Attach", 300, 6000),
             rapid("ext", "TestC10Extractor", 1500, 40000),
+            rapid("sys", "TestC10Socket", 15, 400, qs=12, ts=16),
             fuzz("ext", "FuzzC10Extractor", 120),
         ],
     },
@@ -219,6 +223,7 @@ REG = {
         "required_buckets": {"any": ["msg_0100", "msg_0102", "msg_0801", "msg_1212", "msg_1003", "auth_bad", "auth_ok", "kind_noreply", "kind_unsupported", "sub_packaged", "hdr2019", "handlers_parse_all", "terminals_3"]},
         "parts": [
             rapid("sys", "TestC06", 25, 500, qs=12, ts=16),
+            enum("sys", "TestC06Wrap", 1, 1, tiers=["thorough"], timeout={"thorough": 900}),
         ],
     },
     "C12": {
@@ -255,6 +260,32 @@ REG = {
         "required_buckets": {"any": ["scenario_c06", "scenario_c12", "scenario_c13"]},
         "parts": [
             rapid("sys", "TestC18", 12, 300, qs=12, ts=16, race=True),
+        ],
+    },
+    "C11": {
+        "level": "exploration",
+        "technique": "model-based testing of registry histories (rapid): barrier-sequenced histories of dial / hello / further messages / close / SendActiveMessage over 2..4 keys and 2..8 connections against a key->owner model, plus one racing group per history (two hellos on a free key, close racing a hello) judged by invariants and a routing probe",
+        "level_text": "Sequential steps are awaited through their own observable (reply received, EOF seen, call returned) so the model is exact: a hello on a free key is admitted (join callback with nil error, reply), on an owned key refused (join callback with error, no reply, EOF) without disturbing the owner; closing frees exactly that key; commands reach the owner's socket only; offline keys give the not-exist error within 1 s; messages with another phone never re-key; each successful join has exactly one leave with the same key on the same server connection. Racing groups: exactly one of two simultaneous hellos wins and the probe command lands on the winner.",
+        "level_note": "Leave processing after a client-side close is awaited by a 40 ms pause; verdicts that depend on it are soft evidence (re-run, 2 of 3). Interleavings are sampled, not enumerated.",
+        "rule": "rapid histories of 6..30 macro steps; non-trivial = the history contains a refused duplicate and a successful re-join of a key",
+        "assumptions": ["loopback TCP; child process per scenario"],
+        "required_buckets": {"any": ["refused_duplicate", "rejoin_after_leave", "concurrent_group"]},
+        "parts": [
+            rapid("sys", "TestC11", 15, 400, qs=12, ts=16),
+        ],
+    },
+    "C20": {
+        "level": "exploration",
+        "technique": "property-based testing (rapid) of the terminal simulator against the frame decoder, the reference decoder and the model parsers; differential test of ExpectedReply against the bytes a live server sends (child process); one 65 540-frame sequence per version for the serial wrap (thorough)",
+        "level_text": "For version in {2011, 2013, 2019} x phones of 1..12 (20) digits incl. phones whose template checksum is 0x7E/0x7D x sequences of 1..200 frames over all 24 default commands and custom bodies 0..1023: each frame must be accepted by Decode and by the reference decoder with that command ID, phone (modulo leading zeros), header layout of the version, serial = previous + 1; default bodies parse with the matching model type and re-encode byte-identically; custom bodies come back byte-identical. Live part: simulator frames of the reply-bearing commands sent as the n-th message of a connection must be answered with exactly ExpectedReply(n-1, frame).",
+        "level_note": "Phones are decimal strings up to the field width (longer phones are outside the simulator's documented domain).",
+        "rule": "rapid (version, phone, command sequence); non-trivial = phone shorter than the field (padding) or escaped template checksum, and >= 2 frames",
+        "assumptions": ["reference frame codec"],
+        "required_buckets": {"any": ["version_1", "version_2", "version_3", "template_checksum_escaped", "phone_padded", "custom_body", "cmd_0100", "cmd_0102", "cmd_1212", "pipelined"]},
+        "parts": [
+            rapid("pure", "TestC20", 1500, 40000),
+            rapid("sys", "TestC20Live", 15, 300, qs=8, ts=16),
+            enum("pure", "TestC20Wrap", 3, 3, tiers=["thorough"]),
         ],
     },
 }
